@@ -38,6 +38,9 @@ CHECKS = {
  "C06": ("other", "truth-table extraction from path-sensitive return summaries + guarded-store (must-pass-through) analysis + nil/reflect panic-site census (go/ssa)", "DESIGN.md §3 R-TT/R-STOREGUARD/R-NIL, §4 C06",
    "Decides exactly the finite parts of C06: Condition.Valid's return paths are compared row by row (48 feasible rows) with the table the property states; the expression filter and the parenthesis/padding polarity of condition.string likewise; keyword/operator/expression are proved to be written only by their setters and only after the acceptance test, so a rejected argument leaves the previous value; Cond records Valid()'s verdict; String() renders only when Valid()==nil; no setter/constructor can panic on nil, empty or wrongly typed arguments (census of nil/reflect panic sites in their reachable code).",
    "Necessary conditions only (level other). Not covered: the exact rendered text (string-valued functional correctness), user Operator/Stringer code. Trusted: go/ssa lowering, the fact engine and its summaries (checker/engine.go), the rule tables."),
+ "C10": ("other", "lock-discipline analysis on go/ssa: held regions by CFG reachability and dominance, interprocedural 'all callers hold the lock' contexts, parameter-rooted lock summaries for re-entrancy, lock/unlock pairing, ordering of bookkeeping stores around the sync.Mutex calls; plus re-proof of the capacity, slot-0 and list-operation obligations in a concurrent mode of the fact engine in which acquiring a lock invalidates all facts about shared memory", "DESIGN.md §3 R-LOCK, §4 C10",
+   "Every content write of the eight mutators happens under the written stack's lock; nothing is read or validated before the acquisition and the guards of each write still hold when facts are forgotten at lock() (capacity never exceeded, configuration slot never popped/removed, list operations exact inside one critical section); bookkeeping is written inside the mutex window; no lock is re-acquired while held and none leaks on any return path. The unlocked reads of the configuration slot by the exported wrappers and by lock() itself are genuine races and are reported as known findings (design level: the mutex is stored inside the data it protects).",
+   "Necessary conditions (level other): linearizability and overall race freedom quantify over schedules and are not decided; 9 known findings (L5)."),
  "C12": ("other", "census of type assertions to the native types (who may recognise a Stack/Condition without the converter) + must-consult table over the consumers + path facts 'both converters declined this value' before generic rendering + justification of every declining return path of the converters (go/ssa)", "DESIGN.md §3 R-CONV, §4 C12",
    "No code outside the converters tells a Stack/Condition by a plain type assertion (3 audited positive fast paths excepted); every consumer named by the property consults the converter(s); generic rendering happens only after both converters declined the very value; equality compares the converted instances; the converters decline only nil, zero instances and types not convertible after following pointers.",
    "Necessary conditions (level other): equality of results with the native tree is not decided."),
